@@ -6,7 +6,7 @@ from be_check import run_be, replay_be
 
 PID = 'C05'
 MANIFEST = dict(
-    text='Machine-checked (Coq): the backend micro-step model refines a timestamp skeleton (every micro-step is matched by skeleton steps: proved simulation), and the skeleton\'s ordering invariant holds for every op list; hence for every interleaving of clock reads, registrations, enqueues and backend steps over any number of threads, every capacity and soft/hard limit, the sequence of events the backend processes is sorted by timestamp, provided the grace period is non-zero, the cache is refreshed again after the clock read (read from the source each run), formatter exceptions are contained, and each statement is committed within the grace period of its timestamp (C05_sorted). The pinned tree\'s order is refuted (D5, fixed) and so is a zero grace period (documented meaning). Model run against the real backend with a virtual clock (interposed clock_gettime), threads stalled between clock read and enqueue, first-time threads injected at the yield points around the clock read; monitor on the implementation: written timestamps non-decreasing whenever the run respected the grace period. Scope: one ideal clock (TSC drift/resync not modelled), user clocks excluded as in the code, SC at micro-step granularity.',
+    text='Machine-checked (Coq): the backend micro-step model refines a timestamp skeleton (every micro-step is matched by skeleton steps: proved simulation), and the skeleton\'s ordering invariant holds for every op list; hence for every interleaving of clock reads, registrations, enqueues and backend steps over any number of threads, every capacity and soft/hard limit, the sequence of events the backend processes is sorted by timestamp, provided the grace period is non-zero, the cache is refreshed again after the clock read (read from the source each run), formatter exceptions are contained, and each statement is committed within the grace period of its timestamp (C05_sorted). The pinned tree\'s order is refuted (D5, fixed) and so is a zero grace period (documented meaning). Model run against the real backend with a virtual clock (interposed clock_gettime), threads stalled between clock read and enqueue, first-time threads injected at the yield points around the clock read; monitor on the implementation: written timestamps non-decreasing whenever the run respected the grace period. Scope: one ideal clock (TSC drift/resync not modelled), user clocks excluded as in the code, SC at micro-step granularity. UnboundedBlocking frontends (the default queue type; initial node 256/1024 bytes so that queues grow) run through the same driver and are judged by the property monitor on the implementation only: M-BE models one bounded queue per thread, the node switching of the unbounded queue is proved and tied in C02.',
     design='5 C05', technique='Coq refinement proof (backend micro-step machine -> timestamp skeleton) + ordering invariant + source-fact translator + deterministic-driver differential correspondence')
 
 GRACES = [1000, 1000, 5000]
@@ -16,13 +16,25 @@ def gen(rng, facts):
     g = rng.choice(GRACES)
     ns = 1; nl = rng.randint(1, 2)
     soft = rng.choice([1, 1, 2, 8]); hard = rng.choice([h for h in (1, 2, 4, 8, 16) if h >= soft])
-    c = Case(dropping=rng.choice([0, 0, 1]), capk=rng.choice([8, 10]), tinit=rng.choice([1, 2, 4]), soft=soft, hard=hard,
+    c = Case(dropping=rng.choice([0, 0, 1, 2, 2]), capk=rng.choice([8, 10]), tinit=rng.choice([1, 2, 4]), soft=soft, hard=hard,
              grace=g, loggers=[(0, [0]) for _ in range(nl)], sinks=[(0, [])], facts=facts)
     nt = rng.randint(2, 5)
+    pads = [0, 0, 5]
     def a_log(t, stall=False):
-        return ('log', t, None, rng.randrange(nl), 4, HDR_LOG + rng.choice([0, 0, 5]), 0, stall)
+        return ('log', t, None, rng.randrange(nl), 4, HDR_LOG + rng.choice(pads), 0, stall)
     def fresh(cmd):
         l = list(cmd); l[2] = c.next_id; c.next_id += 1; return tuple(l)
+    if c.dropping == 2 and rng.random() < 0.6:
+        # unbounded queue growing to a new node: 64-byte records fill a node exactly; the hard limit stops the read
+        # on or around the node boundary while another thread holds a later timestamp
+        pads = [19]
+        per_node = (1 << c.capk) // 64
+        c.hard = rng.choice([per_node, per_node, per_node // 2, 2 * per_node]); c.soft = rng.choice([1, 2, min(4, c.hard), c.hard])
+        a = rng.randrange(nt); b = (a + 1) % nt
+        if rng.random() < 0.5: c.cmds.append(fresh(a_log(b))); c.tick(g + 1); c.poll(); c.poll()
+        for _ in range(c.hard + rng.randint(1, per_node + 2)): c.cmds.append(fresh(a_log(a)))
+        c.tick(1); c.cmds.append(fresh(a_log(b))); c.tick(rng.choice([2 * g, g + 1, 5000000]))
+        for _ in range(rng.randint(1, 4)): c.poll()
     for _ in range(rng.randint(6, 45)):
         r = rng.random(); t = rng.randrange(nt)
         if r < 0.35: c.cmds.append(fresh(a_log(t)))
@@ -90,7 +102,7 @@ def nontrivial(case, obs):
 
 RULE = ('virtual-clock schedules: 2-5 threads (+ first-time threads), statements stalled between clock read and enqueue for {0, g-1, g, g+1, g/2} ticks, ticks of {1, g-1, g, g+1, 2g}, '
         'log calls injected at the yield points after the first cache refresh (Y1), after the clock read (Y2), between queue reads (Y3) and in the batch loop (Y4), soft limit 1 (always batch) to 8, '
-        'grace 1000/5000 ticks, blocking and dropping queues; non-trivial = accepted statements from >= 2 threads with >= 3 distinct timestamps; the monitor applies when every accepted statement was committed within the grace period; distinct by case text')
+        'grace 1000/5000 ticks, bounded blocking, bounded dropping and unbounded (growing) queues, bursts of 64-byte records that fill a node exactly with the hard limit on/around the node boundary; non-trivial = accepted statements from >= 2 threads with >= 3 distinct timestamps; the monitor applies when every accepted statement was committed within the grace period; distinct by case text')
 
 run = run_be(PID, 'Properties_C05', gen, monitor, nontrivial, RULE, n_quick=500, n_thorough=20000, corpus_cases=corpus_cases)
 replay = replay_be(PID, monitor)
